@@ -71,7 +71,7 @@ def quick_subset():
         for a in range(len(factors)):
             for b in range(a + 1, len(factors)):
                 need.discard((factors[a], best[factors[a]], factors[b], best[factors[b]]))
-    chosen += [r for r in runs if r["omit"] is not None][:2] + [r for r in runs if not r["delete_chunks"]][:1] + [r for r in runs if r.get("ckpt")][:3]
+    chosen += [r for r in runs if r["omit"] is not None][:2] + [r for r in runs if not r["delete_chunks"]][:1] + [r for r in runs if r.get("ckpt")][:4]
     return chosen
 
 
